@@ -79,6 +79,9 @@ fn main() {
     // Panics of code under test are data, not noise on stderr.
     std::panic::set_hook(Box::new(|_| {}));
     let args = Args::parse(&argv[2..]);
+    if argv[1] != "probe" {
+        sched::install_abort_reporter();
+    }
     let code = match argv[1].as_str() {
         "halflock" => halflock::main(&args),
         "channel" => channel::main(&args),
